@@ -1602,6 +1602,41 @@ theorem globMatch_self : ∀ p : List Char, globMatch p p = true
     · simp only [h, Bool.false_eq_true, if_false, beq_self_eq_true, Bool.or_true, Bool.true_and]
       exact globMatch_self cs
 
+/-! ## the class-aware matcher agrees with the glob model on patterns without `[` -/
+
+theorem matchToks_tokenize_eq_globMatch : ∀ (p : List Char) (n : Nat), p.length ≤ n → '[' ∉ p →
+    matchToks (tokenize n p) = globMatch p
+  | [], n, _, _ => by
+    funext t
+    cases n <;> simp [tokenize, matchToks, globMatch]
+  | c :: cs, 0, h, _ => by simp at h
+  | c :: cs, n + 1, h, hb => by
+    have hlen : cs.length ≤ n := by simpa using h
+    have hcs : '[' ∉ cs := fun hm => hb (List.mem_cons_of_mem _ hm)
+    have hc : (c == '[') = false := by
+      cases hq : c == '[' with
+      | false => rfl
+      | true => exact absurd (by rw [eq_of_beq hq]; exact List.mem_cons_self) hb
+    have ih := matchToks_tokenize_eq_globMatch cs n hlen hcs
+    funext t
+    by_cases h1 : (c == '*') = true
+    · simp only [tokenize, h1, if_true, matchToks, globMatch, ih]
+    · by_cases h2 : (c == '?') = true
+      · simp only [tokenize, h1, h2, Bool.false_eq_true, if_false, if_true, matchToks, globMatch, ih,
+          reduceCtorEq]
+        cases t with
+        | nil => rfl
+        | cons x xs => simp [Tok.accepts]
+      · simp only [tokenize, h1, h2, hc, Bool.false_eq_true, if_false, matchToks, globMatch, ih,
+          reduceCtorEq]
+        cases t with
+        | nil => rfl
+        | cons x xs => simp [Tok.accepts]
+
+theorem fnMatch_eq_globMatch (p t : List Char) (h : '[' ∉ p) : fnMatch p t = globMatch p t := by
+  unfold fnMatch
+  rw [matchToks_tokenize_eq_globMatch p p.length (Nat.le_refl _) h]
+
 /-! ## the driver's environment satisfies `Env.Ok` -/
 
 theorem toLower_idem (c : Char) : c.toLower.toLower = c.toLower := by
